@@ -11,7 +11,6 @@ import (
 	"os"
 	"strings"
 
-
 	"github.com/nlnwa/whatwg-url/canonicalizer"
 	"github.com/nlnwa/whatwg-url/url"
 )
